@@ -62,6 +62,32 @@ def r1_acceptance(ctx, f, rep):
                               site=e['span'], construct='accept')
     for fn in ('Foca::add_broadcast', 'Foca::handle_custom_broadcasts'):
         rep.floor('C16-R1', len(found.get(fn, [])), 1, 'acceptance site in ' + fn)
+    # the other direction: an item the handler accepted (receive_item = Ok(Some(key))) is always put in the backlog -
+    # before the next item is looked at and before the function returns, whatever else is the case
+    nacc = 0
+    for fn in ('Foca::add_broadcast', 'Foca::handle_custom_broadcasts'):
+        b = f.fn(fn)
+        for p in ctx.paths(f, b, 'none'):
+            if p.end != 'return':
+                continue
+            evs = p.events
+            ris = [i for i, e in enumerate(evs) if e['kind'] == 'call' and e['decl'] == 'broadcast::BroadcastHandler::receive_item']
+            for k, i in enumerate(ris):
+                end = ris[k + 1] if k + 1 < len(ris) else len(evs)
+                rid = evs[i]['id']
+                accepted = False
+                for c in evs[i + 1:end]:
+                    if c['kind'] == 'cond' and c['expr'][0] == 'discr' and q.cond_variants(f, c) == {'Some'} and \
+                            q.ok_payload_of(p, c['expr'][1]) == rid:
+                        accepted = True
+                if not accepted:
+                    continue
+                nacc += 1
+                put = [e for e in evs[i + 1:end] if e['kind'] == 'call' and e['res'] == 'broadcast::Broadcasts::add_or_replace'
+                       and e['args'][0] == ('ref', CB, True)]
+                rep.check(len(put) == 1, 'C16-R1', fn, 'an item the handler accepted is always queued (once)', site=evs[i]['span'],
+                          construct='accepted-is-queued')
+    rep.floor('C16-R1', nacc, 2, 'accepted items on returning paths')
     sites = sorted({c[0].nname for c in f.callers_of(lambda x: x == 'broadcast::BroadcastHandler::receive_item')})
     rep.check(sites == ['Foca::add_broadcast', 'Foca::handle_custom_broadcasts'], 'C16-R1', 'BroadcastHandler::receive_item',
               'the handler is fed from exactly these two functions', construct='receive_item-callers', facts={'callers': sites})
@@ -217,6 +243,30 @@ def r3_gating(ctx, f, rep):
                           e['args'][0] == ('ref', CB, True), 'C16-R3', b.nname, 'attachment gate', site=e['span'],
                           construct='gate')
     rep.floor('C16-R3', n, 1, 'fill_with_len_prefix occurrences')
+    # the other direction: a datagram that is sent without the backlog having been offered must say why - no room at
+    # all, a kind that does not carry custom items, or the handler's veto; nothing else (a minimum of free bytes, a
+    # member count) may keep pending items off a datagram they would fit into
+    nsk = 0
+    for p in ctx.paths(f, b, 'none'):
+        if p.end != 'return' or q.path_is_error_propagation(p):
+            continue
+        sends = [i for i, e in enumerate(p.events) if e['kind'] == 'call' and e['decl'] == 'runtime::Runtime::send_to']
+        if not sends or any(e['res'] == 'broadcast::Broadcasts::fill_with_len_prefix' for e in p.calls()):
+            continue
+        nsk += 1
+        calls = {c['id']: c for c in p.calls()}
+        g = c07.pred_conds(p, sends[0], b)
+        norm = g.get('has_remaining_mut') is False
+        for c in q.conds_before(p, sends[0]):
+            z = q.zero_test(c, lambda v: v[0] == 'call' and v[1] in calls and calls[v[1]]['decl'] == 'bytes::BufMut::remaining_mut'
+                            and c07.touches_packet(p, calls[v[1]], mutably=False))
+            if z == 'zero':
+                norm = True
+        rep.check(norm or g.get('allow_custom_broadcasts') is False or g.get('should_add_broadcast_data') is False,
+                  'C16-R3', b.nname, 'the backlog is not offered only for: no byte left, a kind without custom items, the '
+                  'handler\'s veto', construct='skip-justified',
+                  facts={k: v for k, v in g.items() if not k.endswith('#arg')})
+    rep.floor('C16-R3', nsk, 2, 'send_message paths that send without offering the custom backlog')
     c15.r2_accounting(ctx, f, _Rel(rep, 'C15-R2', 'C16-R3'))
     c15.r1_add_or_replace(ctx, f, _Rel(rep, 'C15-R1', 'C16-R3'), Effects(f))
 
